@@ -1123,7 +1123,7 @@ func genImperativeOpt(repo, rel, recvType, prefix, objType, objPrefix, objVar st
 }
 
 func genBreaker(repo string) (string, error) {
-	return genImperative(repo, "internal/circuitbreaker/circuitbreaker.go", "CircuitBreaker", "cb_", "", "", "", []string{"beforeRequest", "afterRequest"})
+	return genImperative(repo, "internal/circuitbreaker/circuitbreaker.go", "CircuitBreaker", "cb_", "", "", "", []string{"beforeRequest", "afterRequest", "State"})
 }
 
 func genHealthGate(repo string) (string, error) {
